@@ -691,7 +691,9 @@ func (m *Message) GetDialog() (string, error) {
 	if err != nil {
 		return "", err
 	}
-	if from_addr_s < to_addr_s {
+	// order the two halves by address and, for equal addresses, by tag, so that the
+	// dialog id does not depend on which endpoint is in From and which in To
+	if from_addr_s < to_addr_s || (from_addr_s == to_addr_s && from_tag < to_tag) {
 		return NewDialog(callId,
 			fmt.Sprintf("%s-%s", from_tag, from_addr_s),
 			fmt.Sprintf("%s-%s", to_tag, to_addr_s)).String(), nil
